@@ -25,9 +25,9 @@ def predPair? : Sexp → Option (Pred × Pred)
 def tableOracle (dj : List (Pred × Pred)) (un : List Pred) : Oracle :=
   { disj := fun p q => dj.contains (p, q) || dj.contains (q, p), uni := fun p => un.contains p }
 
-/-- `(c05 cert <p> <p'> (disj (<pred> <pred>)…) (uni <pred>…))` →
-    `(ok <0|1> (made N) (errs E…))`: the verdict `certTop` of `Model/AutoAtomic.lean` for the
-    un-rewritten tree `p` and the rewritten tree `p'` (left-to-right), the number of rewritten places
+/-- `(c05 cert <rtl 0|1> <p> <p'> (disj (<pred> <pred>)…) (uni <pred>…))` →
+    `(ok <0|1> (made N) (errs E…))`: the verdict `certTopDir` of `Model/AutoAtomic.lean` for the
+    un-rewritten tree `p` and the rewritten tree `p'` (direction `rtl`), the number of rewritten places
     recognised, and why the pair is not certified: `(blocked <site> code)` a pending site meets a
     continuation (classified by `patCode`) that neither fails nor stays at its dead positions,
     `(pending <site> why)` a site is still pending where only the first success is kept and the first
@@ -36,16 +36,16 @@ def tableOracle (dj : List (Pred × Pred)) (un : List Pred) : Oracle :=
     `<site>` = `(acc pred)` | `(btw pred)` | `(top)`. -/
 def handleC05 (args : List Sexp) : String :=
   match args with
-  | [.atom "cert", p, p', dj, un] =>
-    match pat? p, pat? p', tagged? "disj" dj, tagged? "uni" un with
-    | some p, some p', some dj, some un =>
+  | [.atom "cert", rtl, p, p', dj, un] =>
+    match rtl.bool?, pat? p, pat? p', tagged? "disj" dj, tagged? "uni" un with
+    | some rtl, some p, some p', some dj, some un =>
       match dj.mapM predPair?, un.mapM pred? with
       | some dj, some un =>
         let o := tableOracle dj un
-        let r := (cert o false p p').close
-        toString (Sexp.list [.atom "ok", ofBool (certTop o p p'), mk "made" [ofNat r.made], mk "errs" (r.errs.map errSexp)])
+        let r := (cert o rtl p p').close
+        toString (Sexp.list [.atom "ok", ofBool (certTopDir o rtl p p'), mk "made" [ofNat r.made], mk "errs" (r.errs.map errSexp)])
       | _, _ => "(bad-oracle)"
-    | _, _, _, _ => "(bad-args)"
+    | _, _, _, _, _ => "(bad-args)"
   | _ => "(bad-op)"
 
 end RegexVerif.Driver
